@@ -182,6 +182,17 @@ def registration(machine_cls, kind, where, sources):
     if not found:
         return "RegNone"
     meth, obj = found[0]
+    # the registration is unconditional for an accepted step: it is a top-level statement of the callback, and no
+    # `return` occurs anywhere in the callback (a `raise` rejects the pipeline, which is fine; a `return` before the
+    # registration, even nested under an `if`, would drop the step's margins for some accepted configurations)
+    top = [st for st in node.body if isinstance(st, ast.Expr) and isinstance(st.value, ast.Call)
+           and isinstance(st.value.func, ast.Attribute) and is_self_attr(st.value.func.value, "margins")]
+    if len(top) != 1:
+        fail(where, "the margins registration is not a top-level statement of the callback (conditional registration)")
+    if any(isinstance(sub, ast.Return) for sub in ast.walk(node)):
+        fail(where, "a `return` inside the callback may skip the margins registration")
+    if any(isinstance(sub, (ast.Try, ast.While, ast.For)) for sub in ast.walk(node)):
+        fail(where, "loop / try statement in a callback that registers margins (unknown shape)")
     # the registered object must be the one built from the step's configuration in this callback
     built = False
     for sub in ast.walk(node):
